@@ -1,5 +1,6 @@
 import SkyllhModel.Proto
 import SkyllhModel.Model.Rng
+import SkyllhModel.Model.RngDeep
 open Proto Rng
 
 /-  requests (floats as IEEE bit patterns, ints in decimal, lists comma separated, `-` = empty):
@@ -10,6 +11,11 @@ open Proto Rng
       hist <start> <file> <curs> <rows>
           -> seeds the successive extensions run with
       histshared <start> <file> <cur> <rows>     (one service object through all extensions)
+      trialsE <n> <seed> <pos> <m> <maxEv> <nSig> <thr> <maxRep> <npar> <lo> <hi> <needMod> <norep> <delta> <tables>
+          sequential trials whose minimisation may raise -> rows:<…> err:<0|1> rss:<seed>:<pos> m:<…>
+      cobj <right> <rejectsNaN> <atol> <na|ndim of items> <ndim of p> <np.sum(p)> <items> <ps> <us> -> REJ:<class> | ok:<items|ERR>
+      ncpu <cfg|-> <local|->  -> ok:<n> | ERR:value
+      labels <start> <file> <cur> <pos> <ncpu> <tables>  -> seed labels of the rows an extension appends
       trials <n> <ncpu> <seed> <pos> <mseed:mpos|-|same> <maxEv> <nSig> <thr> <maxRep> <npar> <lo> <hi> <tables>
           tables = seed=w,w,…;seed=w,…   (32-bit words of numpy's MT19937 streams, supplied by the harness)
           (`same` = the data service itself is passed as minimizer_rss: reference 0 twice)
@@ -39,21 +45,47 @@ structure Syn where
   lo : Float
   hi : Float
 
-/-- the synthetic analysis of harness/props/c08.py (`_SynAnalysis`): background generator draws
-one uniform for the event count and one per event, the signal generator `nSig` more; the stub
-minimiser needs `#(events < thr) mod (maxRep+1)` restarts, each drawing `npar` initials
-`lo + u*(hi-lo)` from the minimiser service. -/
-def synCfg (c : Syn) : TrialCfg Nat (List Float) (Nat × List Float) where
+structure SynMin where
+  /-- restarts needed = #(events < thr) mod needMod (may exceed maxRep: the loop then gives up) -/
+  needMod : Nat
+  /-- `is_repeatable` is false from attempt number `norep` on (0 = always repeatable) -/
+  norep : Nat
+  /-- the stub implementation returns `initials + delta` (outside the bounds for a large delta) -/
+  delta : Float
+
+/-- the stub `MinimizerImpl` of harness/props/c08.py: the status is the attempt number -/
+def synImpl (m : SynMin) (needed : Nat) : MinImpl (List Float) Nat where
+  minimize k x := (x.map (fun v => v + m.delta), k)
+  converged k := decide (needed ≤ k)
+  repeatable k := m.norep == 0 || decide (k + 1 < m.norep)
+
+/-- the synthetic analysis of harness/props/c08.py: the background generator draws one uniform for
+the event count and one per event, the signal generator `nSig` more; the minimisation is the
+model of `Minimizer.minimize` (`minimizeM`: restart loop, ValueError, clipping) around the stub
+implementation, the restart initials are `generate_random_floating_param_initials`
+(`randInitials`). -/
+def synCfgE (c : Syn) (m : SynMin) : TrialCfgE Nat (List Float) (Nat × List Float) where
   dataGen view :=
     let u0 := dbl view 0
     let nEv := 1 + (u0 * c.maxEv.toFloat).floor.toUInt64.toNat
     let ev := (List.range (nEv + c.nSig)).map (fun k => dbl view (1 + k))
     (ev, 2 * (1 + nEv + c.nSig))
   minim d view :=
-    let reps := (d.countP (fun e => e < c.thr)) % (c.maxRep + 1)
-    let initials := if reps == 0 then [] else
-      (List.range c.npar).map (fun j => c.lo + dbl view ((reps - 1) * c.npar + j) * (c.hi - c.lo))
-    ((reps, initials), 2 * reps * c.npar)
+    let needed := (d.countP (fun e => e < c.thr)) % m.needMod
+    let bounds := List.replicate c.npar (c.lo, c.hi)
+    let x0 := List.replicate c.npar (0.5 * (c.lo + c.hi))
+    let r := minimizeM (synImpl m needed) (fun v => randInitials bounds (dbl v)) (2 * c.npar) c.maxRep
+      (clipTo bounds) x0 view
+    (r.1.map (fun o => (o.reps, o.x)), r.2)
+
+/-- the total-layer configuration: the same with a stub that always converges in time -/
+def synCfg (c : Syn) : TrialCfg Nat (List Float) (Nat × List Float) where
+  dataGen := (synCfgE c ⟨c.maxRep + 1, 0, 0.0⟩).dataGen
+  minim d view :=
+    let r := (synCfgE c ⟨c.maxRep + 1, 0, 0.0⟩).minim d view
+    match r.1 with
+    | .ok x => (x, r.2)
+    | .error _ => ((0, []), r.2)
 
 def parseTables (s : String) : List (Nat × Array Nat) :=
   if s == "-" then [] else
@@ -76,7 +108,18 @@ def pStream (s : String) : Option Stream :=
 def fStream (s : Stream) : String := s!"{s.seed}:{s.pos}"
 
 def fRow (o : TrialOut (List Float) (Nat × List Float)) : String :=
+  let fit := if o.fit.1 == 0 then "-" else fListD fF o.fit.2
+  s!"{o.seed};{o.data.length};{fListD fF o.data};{o.fit.1};{fit}"
+
+def fRowE (o : TrialOut (List Float) (Nat × List Float)) : String :=
   s!"{o.seed};{o.data.length};{fListD fF o.data};{o.fit.1};{fListD fF o.fit.2}"
+
+def fCErr : CErr → String
+  | .typeError => "type"
+  | .valueError => "value"
+  | .indexError => "index"
+
+def pForm (s : String) : ArgForm := if s == "na" then .notArray else .array s.toNat!
 
 def answer (line : String) : String :=
   match tokens line with
@@ -116,6 +159,36 @@ def answer (line : String) : String :=
           | _ => "-"
         let rows := if r.outs.isEmpty then "-" else String.intercalate "|" (r.outs.map fRow)
         s!"rows:{rows} ws:{fListD toString r.workerSeeds} rss:{fStream (r.world 0)} m:{mstr}"
+  | ["trialsE", n, seed, pos, m, maxEv, nSig, thr, maxRep, npar, lo, hi, needMod, norep, delta, tabs] =>
+      let cfg := synCfgE ⟨pN maxEv, pN nSig, pF thr, pN maxRep, pN npar, pF lo, pF hi⟩ ⟨pN needMod, pN norep, pF delta⟩
+      let gen := genOf (parseTables tabs)
+      let (w, ms) : World × Option Nat :=
+        if m == "same" then ((fun _ => ⟨pN seed, pN pos⟩), some 0)
+        else match pStream m with
+          | some st => ((fun r => if r == 1 then st else ⟨pN seed, pN pos⟩), some 1)
+          | none => ((fun _ => ⟨pN seed, pN pos⟩), none)
+      let r := trialsSeqE gen cfg (pN n) w 0 ms
+      let mstr := match ms with
+        | some 1 => fStream (r.world 1)
+        | _ => "-"
+      let rows := if r.outs.isEmpty then "-" else String.intercalate "|" (r.outs.map fRowE)
+      let e := if r.err.isSome then "1" else "0"
+      s!"rows:{rows} err:{e} rss:{fStream (r.world 0)} m:{mstr}"
+  | ["cobj", right, rej, atol, form, ndim, s, its, ps, us] =>
+      -- RandomChoice(items, probabilities)(rss, size) as an object: constructor, then the call on the stored cdf
+      let items := pList pN its
+      match construct (pB rej) (pF atol) (pForm form) (pN ndim) (pF s) items (pList pF ps) with
+      | .error e => s!"REJ:{fCErr e}"
+      | .ok rc =>
+        let u := pList pF us
+        s!"ok:{fOptIdx (rc.call (pB right) u (argsort u))}"
+  | ["ncpu", c, l] =>
+      let o := fun (t : String) => if t == "-" then (none : Option Int) else some t.toInt!
+      match getNcpu (o c) (o l) with
+      | .ok k => s!"ok:{k}"
+      | .error _ => "ERR:value"
+  | ["labels", st, file, cur, pos, ncpu, tabs] =>
+      fListD toString (extendLabels (genOf (parseTables tabs)) id (pN st) (pList pN file) (pN cur) (pN pos) (pN ncpu))
   | _ => "bad-op"
 
 def main : IO Unit := do loop (← IO.getStdin) answer
